@@ -3,6 +3,7 @@ import json
 import os
 import random
 import re
+import struct
 import subprocess
 import time
 
@@ -601,6 +602,10 @@ def oracle_c02(line, h):
     enc = int(t[1])
     tid, n = int(t[2]), int(t[3])
     elems = t[4:4 + n]
+    if tid not in ref.ALL_TIDS:
+        if h != "obj=-3":
+            return "unknown type id %d: '%s' (expected the unknown-typeid status and no object)" % (tid, h)
+        return None
     if enc not in (0, 1, 2, 3):
         if h != "create=-5 live=0":
             return "unknown encoding id %d: '%s' (expected the unknown-encoding status and no array)" % (enc, h)
@@ -649,6 +654,10 @@ def check_c02(res, ctx):
             lines.append("full va 2 %s" % ref.Obj(tid, [e] * ln + [f] + [e] * (ln % 7)).script())
     for enc in [4, 7, -1, 255, 256, 99999]:
         lines.append("full va %d %s" % (enc, gen.robj(r, n=3).script()))
+    # type ids the library does not know: the object constructors refuse them (UNKNOWN_TYPEID)
+    for tid in [0, 11, 14, 99, 253, 255, 256, -1]:
+        for enc in (0, 1, 2, 3):
+            lines.append("full va %d %d 2 0102 0304" % (enc, tid))
     if ctx.tier != "quick":
         # exhaustive small scope: all arrays of length <= 7 over a 3-symbol alphabet per type class x encodings
         import itertools
@@ -1145,6 +1154,57 @@ def check_c07(res, ctx):
             return "subset read differs from the full read restricted to the subset (or ends elsewhere) at dump offset %d: ...%s vs ...%s" % (
                 k, h[max(0, k - 30):k + 50], er[max(0, k - 30):k + 50])
         return None
+    # sbdf_ts_skip over whole files, and sbdf_obj_skip of single unpacked objects
+    fl = []
+    fexp = {}
+    seen = set()
+    for l in sl:
+        hx = l.split()[1]
+        if hx in seen:
+            continue
+        seen.add(hx)
+        k = "fsk " + hx
+        fl.append(k)
+    # expected: as many OK skips as the full read returns slices, then end-of-table at the same offset
+    full = {}
+    for l in sl:
+        hx, ss = l.split()[1], l.split()[2]
+        m = re.search(r" pos=(\d+) live=0$", exp[l])
+        full[hx] = (exp[l].count(" ts=0:"), m.group(1) if m else None)
+
+    def oracle_fsk(l, h):
+        n, pos = full[l.split()[1]]
+        want = "fh=0:1.0 tm=0" + " ts=0" * n + " ts=-1000 pos=%s live=0" % pos
+        if h != want:
+            return "sbdf_ts_skip over the file does not behave like the full read (%d slices, end at %s): %s" % (n, pos, h[:200])
+        return None
+    compare(res, ctx, fl, "c07 sbdf_ts_skip", oracle=oracle_fsk,
+            rule="every file of the subset stage skipped slice by slice with sbdf_ts_skip until end-of-table",
+            nontrivial=lambda l: len(l) > 100)
+    ol = []
+    for _ in range(600 if ctx.tier == "quick" else 8000):
+        tid = r.choice(ref.ALL_TIDS + [0, 11, 14, 99, 255]) if r.random() < 0.9 else r.randrange(256)
+        if ref.is_arr(tid):
+            e = gen.rstr(r, big=r.random() < 0.05)
+            body = struct.pack("<i", len(e)) + e
+            if r.random() < 0.1:
+                body = struct.pack("<i", r.choice([-1, -2147483648, 2147483647, len(e) + 1, 1 << 24])) + e
+        else:
+            body = gen.rbytes(r, ref.SIZES.get(tid, r.randrange(0, 9)))
+        if r.random() < 0.15 and body:
+            body = body[:r.randrange(len(body))]
+        ol.append("oskip %d %s" % (tid, core.hexs(body + gen.rbytes(r, r.choice([0, 0, 3])))))
+
+    def oracle_oskip(l, h):
+        m = re.match(r"rd=0@(\d+):.* sk=(-?\d+)(?:@(\d+))? live=0$", h)
+        if m and (m.group(2) != "0" or m.group(3) != m.group(1)):
+            return "sbdf_obj_skip does not end where sbdf_obj_read ends: " + h[:200]
+        if not h.endswith("live=0"):
+            return "leak: " + h[-30:]
+        return None
+    compare(res, ctx, ol, "c07 sbdf_obj_skip", oracle=oracle_oskip,
+            rule="single unpacked objects of every type id (known, unknown), strings/binaries with int32 lengths incl. negative/huge, truncated bodies, trailing bytes: read vs skip",
+            nontrivial=lambda l: len(l) > 12)
     compare(res, ctx, sl, "c07 column-subset reads", oracle=oracle_sub,
             rule="all 2^n column subsets (n small) / random subsets of reference-encoded and library-style files",
             nontrivial=lambda l: "1" in l.split()[-1] and "0" in l.split()[-1])
